@@ -24,6 +24,7 @@ from . import seams as S
 from . import tables as TB
 from . import units as U
 from . import world as W
+from .ops_io import IOOpsMixin
 
 REPO_CIJ = "/repo/cij/"
 
@@ -60,7 +61,7 @@ class Handle:
         self.write_bytes = {}
 
 
-class Runner:
+class Runner(IOOpsMixin):
     def __init__(self, scenario, mode, root, solo_client=None, oracles=()):
         self.sc = scenario
         self.mode = mode
@@ -243,8 +244,8 @@ class Runner:
         elif tracer is not None and line_fault is not None:
             tracer.arm_fault(line_fault, (client, i, attempt))
         self.seams.ctx.tracer = tracer
+        handler = getattr(self, "op_" + kind.replace(".", "_"))   # unknown operation = harness error, not an observation
         try:
-            handler = getattr(self, "op_" + kind.replace(".", "_"))
             payload = handler(client, i, op)
             rec.update(payload or {})
         except S.SimCancelled:
@@ -311,7 +312,9 @@ class Runner:
                     self.probe("file_indeterminate")
         if "O-frame" in self.oracles and before is not None:
             after = S.snapshot_tree(self.root)
-            changed = sorted(k for k in set(before) | set(after) if before.get(k) != after.get(k))
+            drv = getattr(self, "driver_writes", set())
+            changed = sorted(k for k in set(before) | set(after) if before.get(k) != after.get(k) and k not in drv)
+            self.driver_writes = set()
             allowed = set(rec.get("_expected_files", [])) if rec["status"] == "ok" and not injected else None
             wset = set(writes)
             for k in changed:
@@ -758,7 +761,7 @@ class Runner:
 
     def _check_inv_read(self, client, i, h, base, name, a):
         if a.dtype.kind == "c":
-            self.verdict("O-inv", "C12", client, i, f"{base}.{name} is complex")
+            self.verdict("O-inv", "C12", client, i, f"{base}.{name} is complex", config=self._cfg_summary(h.world))
             return
         if base == "tp" and a.ndim == 2 and a.dtype.kind == "f":
             calc = h.calc
@@ -769,7 +772,7 @@ class Runner:
                 mono = (numpy.diff(p, axis=1) > 0).all(axis=1)
                 inside = (want[None, :] >= lo[:, None]) & (want[None, :] <= hi[:, None]) & mono[:, None]
                 if not numpy.isfinite(a[inside]).all():
-                    self.verdict("O-inv", "C12", client, i, f"pressure-base {name} not finite at bracketed (T,P) points", sig="tp-nonfinite")
+                    self.verdict("O-inv", "C12", client, i, f"pressure-base {name} not finite at bracketed (T,P) points", sig="tp-nonfinite", config=self._cfg_summary(h.world))
                 self.probe("inv_tp_checked")
 
     # -- O-round (C17) on calculator inputs ---------------------------------------
